@@ -133,6 +133,8 @@ theorem blk_roundtrip (b : Blk) (hok : BlkOk b) :
       simp [encodeF_shift6, henc]
     · unfold t1Decode
       simp only [estimate_zero]
+      have h31 : ¬ ((1 : Int) ≥ 31) := by decide
+      simp only [h31, if_false]
       have h1 : ((1 : Nat) : Int) = 1 := rfl
       rw [h1] at hdec
       simp [hdec, halveT, hzero]
@@ -154,6 +156,8 @@ theorem blk_roundtrip (b : Blk) (hok : BlkOk b) :
         | nil => exact absurd rfl hne
         | cons a t => simp
       simp only [estimate_nonzero, he]
+      have h31 : ¬ (((mb + 1 : Nat) : Int) ≥ 31) := by omega
+      simp only [h31, if_false]
       have hneg : ¬ (((mb + 1 : Nat) : Int) < 0) := by omega
       simp only [hneg]
       rw [hnp, hdec]
